@@ -59,6 +59,8 @@ func main() {
 	worker := flag.Bool("worker", false, "internal: decode the inputs given on stdin")
 	capBytes := flag.Int64("cap", 1<<30, "address-space cap of the decoding subprocess (bytes)")
 	only := flag.String("only", "", "one body (debugging)")
+	gn := flag.Int("group", 60, "generated multi-member join-group responses (and sync-group / sticky sequences)")
+	grounds := flag.Int("rounds", 24, "calls of GetMembers per response (the map iteration order varies)")
 	flag.Parse()
 	if *worker {
 		runWorker(*capBytes)
@@ -153,7 +155,9 @@ func main() {
 		w.Add(term, cf.Sidecar{Case: info, Kind: in.row.Name, Nontrivial: len(in.bytes) > 0, Monitor: mon})
 	}
 	w.Close()
-	fmt.Printf("STATS %v total=%d\n", stats, len(inputs))
+	gw := runGroup(*out, tbl, *seed, *gn, *grounds, stats)
+	gw.Close()
+	fmt.Printf("STATS %v total=%d group=%d\n", stats, len(inputs), gw.Total)
 }
 
 // ---------------------------------------------------------------- mutations
